@@ -451,7 +451,11 @@ func resolveDisableExp(r Exp, disable []Exp) ([]Exp, error) {
 			return resolveDisableExp(v.Value, disable)
 		case *RefExp:
 			if _, ok := v.Forks[r.Call]; !ok {
-				return append(disable, r), nil
+				// Sibling calls share the inherited slice: never append
+				// into its spare capacity.
+				result := make([]Exp, len(disable), len(disable)+1)
+				copy(result, disable)
+				return append(result, r), nil
 			}
 		}
 		return resolveDisableExp(r.Value, disable)
